@@ -289,7 +289,7 @@ def check_deleter_pairs(run, db):
                         for g in ctor:
                             inits = {e.get('field'): e for e in g.events() if e['ev'] == 'init'}
                             iv = inits.get('size_')
-                            if iv is None or sym.canon(iv['e']) != '$size':
+                            if iv is None or sym.canon(iv['e'], {0: 'alloc', 1: 'count'}) != '$count':
                                 okk = False
                                 why.append('array deleter constructor does not store the count it is given')
             n += 1
